@@ -1,6 +1,7 @@
 (* C14 - Signal buffer returns exactly the retained window of the logical stream.
    Property theorems only; every proof is `exact <lemma of Buffer/Proofs.v>`. *)
 From PV Require Import Buffer.Model Buffer.Spec Buffer.Proofs.
+From PV Require FloatGrid.Statements.
 
 (* Refinement: for EVERY finite history of appends (any size >= 1, incl. larger than the capacity),
    invalidations (any sample >= 0), resizes (>= 1 sample) and reads (lower <= upper), started from
@@ -40,6 +41,13 @@ Theorem C14_unrepaired_refuted : exists c fill ops, 1 <= c /\ wf_hist (sinit c f
   snd (run_unrepaired (binit c fill) ops) <> snd (spec_run (sinit c fill) ops).
 Proof. exact unrepaired_refuted. Qed.
 Print Assumptions C14_unrepaired_refuted.
+
+(* The model works in samples; the code converts times with round(t*fs).  For a time k/fs that
+   conversion returns k at every real rate in [1, 2^40] (binary64, Flocq):
+   time_to_samples_on_grid := forall k fs, 0 < k < 2^50 -> 1 <= fs <= 2^40 -> round(RN(RN(k/fs)*fs)) = k *)
+Theorem C14_time_to_samples_on_grid : FloatGrid.Statements.time_to_samples_on_grid.
+Proof. exact FloatGrid.Statements.time_to_samples_on_grid_holds. Qed.
+Print Assumptions C14_time_to_samples_on_grid.
 
 Example C14_ex : wf_hist (sinit 3 (-1)) [Append [1;2]; Append [3;4;5;6]; Invalidate 5; Resize 5; Append [7];
                                        ReadS None None; ReadFilled 0 8 9; Bounds] = true /\
